@@ -219,13 +219,24 @@ class Bicomplex(object):
         z02 = 0.5 * (z1 + 1j * z2) ** other
         return Bicomplex(z01 + z02, (z01 - z02) * 1j)
 
-    def __pow__(self, other):
+    def _pow(self, other):
         # TODO: Check correctness
         out = (self.log() * other).exp()
         non_invertible = np.abs(self.mod_c()) < 1e-15
         if non_invertible.any():
             out[non_invertible] = self[non_invertible]._pow_singular(other)
         return out
+
+    def __pow__(self, other):
+        if (not isinstance(other, Bicomplex) and np.ndim(other) == 0 and np.isreal(other)
+                and float(np.real(other)).is_integer()):
+            # zeta**k = (-1)**k * (-zeta)**k for integer k: for a negative real part the logarithm carries a
+            # +-pi branch offset that swamps the small perturbations in the other components
+            negative = np.real(self.z1) < 0
+            if np.any(negative):
+                sign = np.where(negative, -1.0, 1.0)
+                return Bicomplex(self.z1 * sign, self.z2 * sign)._pow(other) * sign ** int(np.real(other))
+        return self._pow(other)
 
     def __rpow__(self, other):
         return (np.log(other) * self).exp()
